@@ -339,7 +339,9 @@ def run(ctx):
     def gen_long():
         # escapes meeting the folding layer: a value of every length up to two folds that ENDS (or starts, or is cut in the
         # middle) with something the escaping changes, so that each of these falls on every column of a physical line
-        tails = ("\\", ";", ",", "\n", "\\n", "a\\", "\\\\", "\r\n", "\u00e9\\", "\\;", "n")
+        tails = ("\\", ";", ",", "\n", "\\n", "a\\", "\\\\", "\r\n", "\u00e9\\", "\\;", "n",
+                 # runs of blanks: a whole physical line of the folded form may then consist of white space only
+                 " ", "  ", "\t", " \t ", " " * 73, " " * 74, " " * 75, " " * 147, "\t" * 150, " " * 230)
         for tail in tails:
             for pad in range(0, 161):
                 for s_ in ("x" * pad + tail, tail + "x" * pad, "x" * (pad // 2) + tail + "x" * (pad - pad // 2)):
